@@ -19,13 +19,23 @@
     does not depend on it: fewer workers only remove interleavings. *)
 From Coq Require Import List Arith NArith Bool Lia.
 Import ListNotations.
+(** Tier A: the packing of [AtomicCounts] is REGENERATED from concurrency/src/threadpool/mod.rs on
+    every run (gen/CountsFns.v, translator/src/x_counts.rs): [EXPECTED_SHIFT], [COMPLETED_MASK],
+    [expected], [completed], the initial word, the guard and the CAS target of [expect_one], the
+    [fetch_add] of [complete_one] and the "was that the last completion" test of
+    [ScopeState::complete_one], all over N with an explicit [mod 2^w] after every wrapping operation.
+    The transition system below uses those definitions, nothing hand-copied. *)
+Require Verif.gen.CountsFns.
 
-Definition SHIFT : N := 4294967296.          (* 1 << EXPECTED_SHIFT *)
-Definition U32MAX : N := 4294967295.         (* u32::MAX = COMPLETED_MASK *)
+(** reference forms, used only to STATE what the regenerated arithmetic amounts to
+    (Conc/Scope.v proves the regenerated functions equal to them: [expected_spec] ...) *)
+Definition SHIFT : N := 4294967296.          (* 2^32 *)
+Definition U32MAX : N := 4294967295.         (* u32::MAX *)
 Definition U64MOD : N := 18446744073709551616.
-Definition expected (v : N) : N := ((v / SHIFT) mod SHIFT)%N.   (* (value >> 32) as u32 *)
-Definition completed (v : N) : N := (v mod SHIFT)%N.            (* (value & MASK) as u32 *)
 Definition add64 (a b : N) : N := ((a + b) mod U64MOD)%N.       (* AtomicU64 arithmetic wraps *)
+
+Definition expected (v : N) : N := CountsFns.expected v.
+Definition completed (v : N) : N := CountsFns.completed v.
 
 (** program counter of a job wrapper (root callback or spawned task) *)
 Inductive pc := Body | Enq (k : nat) | Rec | Fin.
@@ -58,20 +68,22 @@ Record st := mk {
 }.
 
 Definition init : st :=
-  mk SHIFT [] [(0, Body)] Cb 0 false false false 0 [0] [0] [] false false.
+  mk CountsFns.with_root_callback [] [(0, Body)] Cb 0 false false false 0 [0] [0] [] false false.
 
 Inductive label :=
 | LExpect (w k : nat) | LEnqueue (w k : nat) | LStart (k : nat)
 | LBodyOk (w : nat) | LBodyPanic (w : nat) | LRecord (w : nat)
 | LComplete (w : nat) | LRecv | LReturn.
 
-Definition is_last (c : N) : bool := N.eqb (completed c + 1) (expected c).
+(** [ScopeState::complete_one] applies its test to the word RETURNED by [AtomicCounts::complete_one] *)
+Definition is_last (c : N) : bool :=
+  CountsFns.scope_complete_is_last (CountsFns.complete_one_result c).
 
 Inductive step : st -> label -> st -> Prop :=
 | SExpect s w k r1 r2 :
-    run s = r1 ++ (w, Body) :: r2 -> ~ In k (spawned s) -> (expected (cnt s) < U32MAX)%N ->
+    run s = r1 ++ (w, Body) :: r2 -> ~ In k (spawned s) -> CountsFns.expect_one_guard (cnt s) = true ->
     step s (LExpect w k)
-      (mk (add64 (cnt s) SHIFT) (queue s) (r1 ++ (w, Enq k) :: r2) (caller s) (done_msgs s)
+      (mk (CountsFns.expect_one_next (cnt s)) (queue s) (r1 ++ (w, Enq k) :: r2) (caller s) (done_msgs s)
           (slot s) (rooterr s) (reported s) (sent s) (k :: spawned s) (runs s) (fins s)
           (ptask s) (proot s))
 | SEnqueue s w k r1 r2 :
@@ -107,7 +119,7 @@ Inductive step : st -> label -> st -> Prop :=
 | SComplete s w r1 r2 :
     run s = r1 ++ (w, Fin) :: r2 ->
     step s (LComplete w)
-      (mk (add64 (cnt s) 1) (queue s) (r1 ++ r2)
+      (mk (CountsFns.complete_one_next (cnt s)) (queue s) (r1 ++ r2)
           (if Nat.eqb w 0 then (if is_last (cnt s) then Take else Wait) else caller s)
           (if is_last (cnt s) then S (done_msgs s) else done_msgs s)
           (slot s) (rooterr s) (reported s)
@@ -164,8 +176,8 @@ Definition exec (s : st) (l : label) : option st :=
   | LExpect w k =>
       match upd_pc w Body (Enq k) (run s) with
       | Some r' =>
-          if (negb (mem k (spawned s)) && N.ltb (expected (cnt s)) U32MAX)%bool then
-            Some (mk (add64 (cnt s) SHIFT) (queue s) r' (caller s) (done_msgs s)
+          if (negb (mem k (spawned s)) && CountsFns.expect_one_guard (cnt s))%bool then
+            Some (mk (CountsFns.expect_one_next (cnt s)) (queue s) r' (caller s) (done_msgs s)
                     (slot s) (rooterr s) (reported s) (sent s) (k :: spawned s) (runs s) (fins s)
                     (ptask s) (proot s))
           else None
@@ -214,7 +226,7 @@ Definition exec (s : st) (l : label) : option st :=
   | LComplete w =>
       match del_pc w Fin (run s) with
       | Some r' =>
-          Some (mk (add64 (cnt s) 1) (queue s) r'
+          Some (mk (CountsFns.complete_one_next (cnt s)) (queue s) r'
                   (if Nat.eqb w 0 then (if is_last (cnt s) then Take else Wait) else caller s)
                   (if is_last (cnt s) then S (done_msgs s) else done_msgs s)
                   (slot s) (rooterr s) (reported s)
